@@ -327,6 +327,22 @@ def must_visit(n, derived, is_fold_call, depth=0):
         return False
     if k == "Closure":
         return False
+    if k == "Block":
+        # statements in order: a `?` on an Option (a silent early exit: the closure / function just yields None) or a plain
+        # return / continue / break that is evaluated before the visit makes the visit conditional - unless what is tested is
+        # the child itself.  (`?` on a Result is error propagation: the program is rejected.)
+        from flow import uncond_nodes
+        for st in list(n.get("stmts") or []) + ([n["e"]] if isinstance(n.get("e"), dict) else []):
+            if must_visit(st, derived, is_fold_call, depth + 1):
+                return True
+            for x in uncond_nodes(st):
+                if x.get("k") == "Try":
+                    ity = strip_ty((peel(x["e"]) or {}).get("ty", "") or "")
+                    if ity.startswith("core::option::Option<") and not (Flow.mentions(x["e"], derived) and not _mentions_other(x["e"], derived)):
+                        return False
+                elif x.get("k") in ("Ret", "Continue", "Break") and not is_err_exit(x):
+                    return False
+        return False
     if k == "ForLoop":
         return must_visit(n["iter"], derived, is_fold_call, depth + 1) or must_visit(n["body"], derived, is_fold_call, depth + 1)
     if k in ("While", "Loop"):
